@@ -126,3 +126,25 @@ func firstPanicLine(out string) string {
 	}
 	return out
 }
+
+// runSelf runs this binary again with an extra environment variable and returns its output.
+func runSelf(env string, timeout time.Duration) (string, error) {
+	cmd := exec.Command(os.Args[0], os.Args[1:]...)
+	cmd.Env = append(os.Environ(), env, "GOTRACEBACK=single")
+	var buf strings.Builder
+	cmd.Stdout = &buf
+	cmd.Stderr = &buf
+	if err := cmd.Start(); err != nil {
+		return "", err
+	}
+	done := make(chan error, 1)
+	go func() { done <- cmd.Wait() }()
+	select {
+	case err := <-done:
+		return buf.String(), err
+	case <-time.After(timeout):
+		cmd.Process.Kill()
+		<-done
+		return buf.String(), fmt.Errorf("timeout")
+	}
+}
